@@ -330,6 +330,16 @@ def _defined_outside(f, nm):
     return nm in f.params()
 
 
+# functions whose mechanical mutants are swept in the thorough tier (coverage evidence, see sa/mutate.py)
+MUTATION_SCOPE = ['autograd:numeric_grad',
+                  'autograd:numeric_jacobian',
+                  'autograd:multi_jacobian_of_fn',
+                  'autograd:multi_jacobian_of_fn.single_param_fn',
+                  'autograd:multi_grad_of_fn',
+                  'autograd:multi_grad_of_fn.call_fn_with_tensors',
+                  'dyads:eval_dyad_grad',
+                  'dyads:eval_dyad_grad.func']
+
 SEEDS = [
     Seed("restore-out-of-finally-grad", "fault", "dyads",
          "            try:\n                return call_fn(v)\n            finally:\n                klong[a] = orig",
